@@ -66,6 +66,9 @@ pub fn clap_parse(req: &Value) -> Value {
     std::env::remove_var("RENAMIFY_YES");
     match Cli::try_parse_from(&argv) {
         Ok(cli) => json!({"ok": true, "parsed": format!("{:?}", cli)}),
+        // --version / --help are answered by clap itself: the command line is accepted
+        Err(e) if matches!(e.kind(), clap::error::ErrorKind::DisplayVersion | clap::error::ErrorKind::DisplayHelp) =>
+            json!({"ok": true, "parsed": format!("display: {:?}", e.kind())}),
         Err(e) => json!({"ok": false, "kind": format!("{:?}", e.kind()), "msg": e.to_string().lines().next().unwrap_or("").to_string()}),
     }
 }
